@@ -74,6 +74,24 @@ def reexec_deterministic():
     os.execvpe(argv[0], argv, env)
 
 
+def private_tmpdir():
+    """Everything this check and its children (forked streams, fleet workers,
+    gcc runs of loopy's C target) put into the temp directory goes into one
+    private directory that is removed when the check ends."""
+    import atexit
+    import tempfile
+    d = tempfile.mkdtemp(prefix="verif-run-")
+    os.environ["TMPDIR"] = d
+    tempfile.tempdir = d
+    owner = os.getpid()
+
+    def cleanup():
+        if os.getpid() == owner:
+            shutil.rmtree(d, ignore_errors=True)
+    atexit.register(cleanup)
+    return d
+
+
 def assert_repo_pytato():
     import pytato
     f = os.path.realpath(pytato.__file__)
